@@ -24,7 +24,7 @@ Proof.
 Qed.
 
 Lemma conv_dur_spec : forall f d,
-  conv_dur f d = if (f d <=? u64_max)%N then inr (Unsigned (f d)) else inl InvalidInput.
+  conv_dur f d = if (f d <=? u64_max)%N then inr (Unsigned (f d)) else inl EInvalid.
 Proof.
   intros f d. unfold conv_dur. destruct (N.ltb_spec u64_max (f d)) as [H|H].
   - destruct (N.leb_spec (f d) u64_max) as [H'|H']; [lia|reflexivity].
@@ -34,12 +34,12 @@ Qed.
 
 Theorem timer_duration : forall d,
   to_value Timer (ADur d) =
-  Some (if (as_millis d <=? u64_max)%N then inr (Unsigned (as_millis d)) else inl InvalidInput).
+  Some (if (as_millis d <=? u64_max)%N then inr (Unsigned (as_millis d)) else inl EInvalid).
 Proof. intros d. cbn [to_value]. rewrite conv_dur_spec. reflexivity. Qed.
 
 Theorem hist_duration : forall d,
   to_value Histogram (ADur d) =
-  Some (if (as_nanos d <=? u64_max)%N then inr (Unsigned (as_nanos d)) else inl InvalidInput).
+  Some (if (as_nanos d <=? u64_max)%N then inr (Unsigned (as_nanos d)) else inl EInvalid).
 Proof. intros d. cbn [to_value]. rewrite conv_dur_spec. reflexivity. Qed.
 
 (* the guard in terms of the fields, for well-formed durations: a Timer accepts exactly the
@@ -78,7 +78,7 @@ Qed.
 (* ------------------------------------------------------------------ packed durations *)
 Lemma conv_durs_spec : forall f l,
   conv_durs f l = if forallb (fun d => (f d <=? u64_max)%N) l
-                  then inr (PackedUnsigned (map f l)) else inl InvalidInput.
+                  then inr (PackedUnsigned (map f l)) else inl EInvalid.
 Proof.
   intros f l. unfold conv_durs.
   assert (E : existsb (fun d => (u64_max <? f d)%N) l = negb (forallb (fun d => (f d <=? u64_max)%N) l)).
@@ -91,7 +91,7 @@ Qed.
 
 (* rejected iff SOME element, at any index, overflows *)
 Lemma conv_durs_reject_iff : forall f l,
-  conv_durs f l = inl InvalidInput <-> exists i d, nth_error l i = Some d /\ (u64_max < f d)%N.
+  conv_durs f l = inl EInvalid <-> exists i d, nth_error l i = Some d /\ (u64_max < f d)%N.
 Proof.
   intros f l. rewrite conv_durs_spec. split.
   - intros H. destruct (forallb (fun d => (f d <=? u64_max)%N) l) eqn:Ef; [discriminate|].
@@ -116,7 +116,7 @@ Proof.
 Qed.
 
 Lemma conv_durs_dichotomy : forall f l,
-  conv_durs f l = inl InvalidInput \/
+  conv_durs f l = inl EInvalid \/
   (conv_durs f l = inr (PackedUnsigned (map f l)) /\ forall d, In d l -> (f d <= u64_max)%N).
 Proof.
   intros f l. rewrite conv_durs_spec.
@@ -125,10 +125,11 @@ Proof.
 Qed.
 
 (* ------------------------------------------------------------------ the table *)
-(* which (kind, argument type) pairs exist: exactly the 22 impls + user-defined values *)
+(* which (kind, argument type) pairs exist: exactly the 22 impls + user-defined values
+   (whose conversion may succeed, AUser, or fail, AUserErr) *)
 Definition entry_exists (k : kind) (a : arg) : bool :=
   match a with
-  | AUser _ => true
+  | AUser _ | AUserErr _ => true
   | AI64 _ => match k with Counter | SetK => true | _ => false end
   | AI32 _ | AU32 _ => match k with Counter => true | _ => false end
   | AU64 _ => match k with SetK => false | _ => true end
